@@ -21,15 +21,29 @@ from vlib import core
 from checks import c07_gen as g
 
 META = {
-    "claimed": False,
     "harness_bins": ["c07fv", "nkeval"],
     "extract": "C07.v",
-    "technique": "Coq proof: (A) the model of the free-variable analysis of free_vars.rs computes exactly the free variables of an independent inductive specification, hence every field dependency is recorded; (B) the model of revertible thunks / revert / saturate / init_cached / merge refines a heap-free late-binding specification (records of winning definitions) for every override history; models tied to the Rust code by running the real analysis and the real interpreter on generated programs and histories",
-    "level_text": "see coq/Props/C07.v",
-    "level_note": "",
+    "technique": "Coq proof: (A) the model of the free-variable analysis of free_vars.rs computes exactly the free variables of an independent inductive specification, so every field dependency is recorded; (B) the model of revertible thunks / revert / saturate / init_cached / merge refines a heap-free late-binding specification (a record = the table of winning definitions) for every override history; both models tied to the Rust code by running the real analysis and the real interpreter on generated programs and histories; direct oracles (merged = textually substituted, same with all dependencies unknown, operands unchanged) on a broad generator",
+    "level_text": "Proved in Coq (coq/Props/C07.v, closed under the global context). "
+                  "Part A, for every term of a syntax with one constructor per case of free_vars.rs (Var, Fun, Let rec/non-rec, App, Op1/Op2/OpN, arrays, enum variants, string chunks, Annotated, Sealed, Closurize, record values, RecRecord with static / included / dynamic fields, custom contracts, types: atoms, variables, forall, dict, array, arrow, record rows, enum rows with argument types and tails, Contract(term)): "
+                  "C07_collect_sound_complete - the model of CollectFreeVars returns exactly the variables that occur free according to an independent inductive specification (record literals bind their static and included names in field values and annotations, not in dynamic field names; include x is an occurrence of the outer x); "
+                  "C07_deps_complete_stat/_incl/_dyn and C07_deps_sound_stat - the RecordDeps entry of every static, included and dynamic field contains exactly the recursive fields free in its annotations and value; C07_deps_pre_fix_refuted - the analysis before fix a9a5295 (enum types skipped) violates this on { Ctr = Number, x | [| 'A Ctr |] = 'A 1 }. "
+                  "Part B, for flat recursive records of integer expressions (n, x, +, *, if a <= b) with all priority forms, fields without definition, dynamically named fields, and every override history (literals, merges of any earlier results, re-merging, an operand used several times, the empty record): "
+                  "C07_history_fields - no step panics, and after the whole history every field of every step (merge results and operands alike), read through the thunks of the mechanism model, equals - same value or same error class, same fuel - the field of the single specification record obtained by substituting the winning definitions (higher priority wins, equal priorities give the piecewise definition d1 & d2, each definition keeps the lexical scope of its literal, every name bound late to the same final record); "
+                  "C07_override_refines, C07_eval_literal_ok, C07_merge_ok (invariant `coherent`: every revertible thunk of a record instance is cached on its own instance, dependencies known and within the field names, side filters of saturated bodies nested; preserved; abs(merge) ~ smerge(abs, abs)), C07_operands_unchanged, C07_merge_refines, C07_extends_coherent; "
+                  "C07_vars_free / C07_cfg_partA_faithful / C07_literal_deps_agree_* - the dependency sets the mechanism uses are those of part A. "
+                  "These hold for the configuration with the patch proposed for BinaryOp::RecordInsert and (C07_history_fields_current) for the Rust code as it is on histories without dynamically named fields; C07_dynamic_field_indirection_refuted: the code as it is gives 11 instead of 6 for the dynamically named field of `{b | default = 10, \"%{n}\" = b + 1} & {b = 5}` (known finding, reproduced on the implementation). "
+                  "Teeth: C07_revert_keeps_cache_panics/_refuted/_overwrite_refuted (revert = clone), C07_inplace_revert_refuted, C07_deps_incomplete_refuted/_after_override_refuted. "
+                  "Ties: (A) harness c07fv parses source with the real parser, converts it with to_mainline, runs transform::free_vars::transform, prints the real term in the model's syntax (exhaustive matches, a new variant does not compile; the Rust enums are also read from source and compared with the covered constructors) and its RecordDeps; the extracted model is run on that term: corpus, every .ncl file of /repo (stdlib included), generated programs over 5 colliding names. "
+                  "(B) generated override histories on the extracted mechanism model (configured as closurize.rs is, read from source), on the extracted specification and on the real interpreter (every field of every step, by value or error class; normal and with hook H4). "
+                  "(O) on the implementation alone, structured records with static, nested, piecewise, dynamically named and included fields, dependencies through arithmetic, interpolation, if, arrays, functions, match, inline records, contracts depending on fields, 1-3 overriding operands in 7 merge shapes: merged = textually substituted record (whole export, and leaf by leaf when some field fails), = the same with all dependencies unknown, operands read after the merge = operands alone, merge after forcing the operands = merge.",
+    "level_note": "Trusted: Coq kernel; extraction (ExtrOcamlBasic only); harness bins c07fv and nkeval; the Python generators; the reading of lazy.rs / merge.rs / fixpoint.rs / closurize.rs / eval/mod.rs in coq/Rec/Mech.v (value level: Rc<RefCell> thunks as cells of a list heap; `cached = Some rid` stands for the closure built by init_cached; saturate's explicit function + application is represented by a body that keeps its own dependency filter; constants are standard thunks; the order of fields inside a record and memoisation of evaluated thunks are not modelled - the latter is exercised by the forcing-order variants of the correspondence). "
+                  "Partial: the Coq mechanism/specification cover flat records of integer expressions; nested records, piecewise paths, includes, strings, arrays, functions and contracts that depend on fields are covered by part A (dependency analysis, all syntax) and by the direct oracles on the implementation, not by the refinement proof; FieldDeps::Unknown (hook H4) is in the executable model and compared with the implementation, the theorems assume known dependencies. Known finding dynamic-field-not-recomputed (proposed patch in proposed/C07-record-insert-keep-revertible-thunk.diff).",
 }
 
 REPO = core.REPO
+# reduced case counts for the mutation sanity runs (None: the tier's counts)
+N_OVERRIDE_FV = N_OVERRIDE_HIST = N_OVERRIDE_OV = None
 
 
 def esc(s):
@@ -120,7 +134,7 @@ def repo_ncl_files():
 
 def part_a(ck, exe_model):
     rng = core.SplitMix64(ck.seed * 1000003 + 701)
-    n_gen = 4000 if ck.tier == "quick" else 120000
+    n_gen = N_OVERRIDE_FV or (4000 if ck.tier == "quick" else 120000)
     reqs, kinds = [], []
     for s in g.FV_CORPUS:
         reqs.append(esc(s))
@@ -185,6 +199,41 @@ def part_a(ck, exe_model):
 
 
 # --------------------------------------------------------------------------- part B
+def dyn_wrap_in_source():
+    """Which configuration of the mechanism model is the Rust code?  The value of a dynamically
+    named field reaches BinaryOp::RecordInsert (operation.rs) as a thunk.  As long as RecordInsert
+    closurizes whatever it pops and `Closurize for NickelValue` (closurize.rs) reuses a thunk only
+    when it has no dependencies, the revertible thunk is wrapped in a standard thunk (model
+    cfg_current, True).  If RecordInsert keeps a popped thunk as it is (the proposed patch), or
+    closurize reuses thunks whatever their dependencies, there is no indirection (cfg_fixed, False).
+    None: the code has a form this reader does not know (fail closed)."""
+    def norm(path):
+        src = open(os.path.join(REPO, path), errors="replace").read()
+        src = re.sub(r"//[^\n]*", " ", src)
+        return re.sub(r"\s+", " ", src)
+    clo = norm("core/src/closurize.rs")
+    m = re.search(r"ValueContentRef::Thunk\((\w+)\) if (.*?) => \{? ?self\.try_into_thunk\(\)\.unwrap\(\)", clo)
+    if not m or "matches!(btype, BindingType::Normal)" not in m.group(2):
+        return None
+    closurize_wraps = "deps().is_empty()" in m.group(2)
+    if not closurize_wraps and m.group(2).strip() != "matches!(btype, BindingType::Normal)":
+        return None
+    op = norm("core/src/eval/operation.rs")
+    i = op.find("if let RecordExtKind::WithValue = ext_kind {")
+    j = op.find("record.fields.insert(", i)
+    if i < 0 or j < 0:
+        return None
+    arm = op[i:j]
+    plain = re.search(r"let closurized = value_closure \.value \.closurize\(&mut self\.context\.cache, value_closure\.env\);", arm)
+    keeps = re.search(r"let closurized = if value_closure\.value\.as_thunk\(\)\.is_some\(\) \{ value_closure\.value \} else \{ value_closure \.value "
+                      r"\.closurize\(&mut self\.context\.cache, value_closure\.env\) \};", arm)
+    if keeps:
+        return False
+    if plain:
+        return closurize_wraps
+    return None
+
+
 def corpus_lines(name):
     p = os.path.join(core.ROOT, "corpus", "C07", name)
     if not os.path.exists(p):
@@ -219,7 +268,7 @@ def expect_line(v):
 
 def part_b(ck, exe_model):
     rng = core.SplitMix64(ck.seed * 1000003 + 702)
-    n = 800 if ck.tier == "quick" else 25000
+    n = N_OVERRIDE_HIST or (800 if ck.tier == "quick" else 25000)
     hists = []
     for line in corpus_lines("histories.case"):
         hists.append(json.loads(line))
@@ -228,25 +277,44 @@ def part_b(ck, exe_model):
         hists.append(g.gen_history(rng.fork()))
     ck.coverage["history_corpus"] = ncorpus
     sx = [g.history_sexp(h) for h in hists]
-    rc, mod, err = core.run_sharded(exe_model, [], ["hist " + s for s in sx])
-    rc2, modu, err2 = core.run_sharded(exe_model, [], ["histu " + s for s in sx])
-    if rc or rc2:
-        ck.obligation("correspondence-run:model-hist", "internal", False, "rc=%s/%s %s %s" % (rc, rc2, err[-500:], err2[-500:]))
+    wrap = dyn_wrap_in_source()
+    ck.obligation("translator:RecordInsert/closurize wrap-or-keep the thunk of a dynamically named field (selects the model configuration)",
+                  "translator", wrap is not None,
+                  "" if wrap is not None else "BinaryOp::RecordInsert (operation.rs) or the Thunk arm of `Closurize for NickelValue` (closurize.rs) has a form this reader does not know")
+    ck.coverage["model_configuration"] = "cfg_current (dynamic field values wrapped)" if wrap else "cfg_fixed (no indirection)"
+    code = "hist" if wrap or wrap is None else "histf"
+    rc, mod, err = core.run_sharded(exe_model, [], [code + " " + s for s in sx])
+    rc2, modu, err2 = core.run_sharded(exe_model, [], [code + "u " + s for s in sx])
+    rc3, modf, err3 = core.run_sharded(exe_model, [], ["histf " + s for s in sx])
+    if rc or rc2 or rc3:
+        ck.obligation("correspondence-run:model-hist", "internal", False, "rc=%s/%s/%s %s %s %s" % (rc, rc2, rc3, err[-500:], err2[-500:], err3[-500:]))
     # requests for the real interpreter
     reqs, meta = [], []       # meta: (history index, kind, expected line)
-    for hi, (h, m, mu) in enumerate(zip(hists, mod, modu)):
-        if "\t" not in m:
+    for hi, (h, m, mu, mf) in enumerate(zip(hists, mod, modu, modf)):
+        if "\t" not in m or "\t" not in mf:
             ck.obligation("model-run", "internal", False, "model output %s for %s" % (m[:200], sx[hi][:300]))
             continue
         i_out, s_out = m.split("\t")
+        if_out, _ = mf.split("\t")
         iu_out, _ = mu.split("\t") if "\t" in mu else ("", "")
+        has_dyn = "(dyn " in sx[hi]
         ck.case(key=sx[hi], nontrivial=any(s[0] == "merge" for s in h))
         ck.hist("history_steps", len(h))
         ck.hist("history_merges", sum(1 for s in h if s[0] == "merge"))
-        # the theorem override_refines / history_refines, executed
+        ck.hist("history_has_dynamic_field", has_dyn)
+        # the theorems history_fields (patched configuration) / history_fields_current (the code as it
+        # is, no dynamically named field), executed
+        if if_out != s_out:
+            ck.obligation("model:I(cfg_fixed)-refines-S (theorem C07_history_fields, executed)", "correspondence", False,
+                          "history %s\nI %s\nS %s" % (sx[hi], if_out, s_out))
         if i_out != s_out:
-            ck.obligation("model:I-refines-S (theorem C07_history_refines, executed)", "correspondence", False,
-                          "history %s\nI %s\nS %s" % (sx[hi], i_out, s_out))
+            if has_dyn and wrap:
+                # theorem C07_dynamic_field_indirection_refuted: the code as it is departs from the
+                # specification on dynamically named fields (reported by the direct oracle below)
+                ck.count("histories_where_the_model_of_the_current_code_departs_from_S")
+            else:
+                ck.obligation("model:I-refines-S (theorem C07_history_fields_current, executed)", "correspondence", False,
+                              "history %s\nI %s\nS %s" % (sx[hi], i_out, s_out))
         if iu_out != i_out:
             # generated literals are closed (every variable is a field of its literal), where H4 must not matter
             ck.obligation("model:I(H4 deps unknown) = I on closed literals", "correspondence", False,
@@ -328,7 +396,7 @@ def run_nk(reqs):
 
 def oracles(ck):
     rng = core.SplitMix64(ck.seed * 1000003 + 703)
-    n = 800 if ck.tier == "quick" else 25000
+    n = N_OVERRIDE_OV or (800 if ck.tier == "quick" else 25000)
     cases = []
     for (a, b) in g.OV_CORPUS:
         cases.append({"shape": "corpus", "nops": 1, "features": ["corpus"], "progs": {"merged": a, "subst": b},
@@ -372,6 +440,10 @@ def oracles(ck):
         if m != s or m != u:
             if m.startswith("OK") and s.startswith("OK") and u.startswith("OK"):
                 # everything exports: the values must be equal
+                if m == u and only_dynamic_fields_differ(m, s):
+                    ck.count("dynamic_field_stale_cases")
+                    ck.violation(DYN_KEY, DYN_TEXT, {"case": c["progs"], "outcomes": r, "how_to_replay": "./verif check C07 --replay <this file>"})
+                    continue
                 key = "oracle:subst" if m != s else "oracle:depsunknown"
                 ck.violation(key + ":" + c["shape"],
                              "R & P1 & ... differs from %s" % ("the record with the winning definitions substituted" if m != s else "the same program with all field dependencies unknown (H4)"),
@@ -431,10 +503,14 @@ def oracles(ck):
             if leaf_equiv(m, s):
                 ck.count("oracle_leaf_error_class_differs_only")
                 continue
+            if p.split(".")[0] in g.DYN and m == u:
+                ck.count("dynamic_field_stale_cases")
+                ck.violation(DYN_KEY, DYN_TEXT, {"case": c["progs"], "field": p, "outcomes": d, "how_to_replay": "./verif check C07 --replay <this file>"})
+                continue
             ck.violation("oracle:subst-leaf:" + c["shape"],
                          "field %s: R & P1 & ... gives %s, the substituted record gives %s" % (p, (m or "")[:80], (s or "")[:80]),
                          {"case": c["progs"], "field": p, "outcomes": d, "how_to_replay": "./verif check C07 --replay <this file>"})
-        if m != u:
+        if m != u and not (diverges(m or "") and diverges(u or "")):
             ck.violation("oracle:depsunknown-leaf:" + c["shape"],
                          "field %s: %s normally, %s with all dependencies unknown" % (p, (m or "")[:80], (u or "")[:80]),
                          {"case": c["progs"], "field": p, "outcomes": d, "how_to_replay": "./verif check C07 --replay <this file>"})
@@ -448,6 +524,56 @@ def oracles(ck):
     return [{"merged": cases[ncorpus]["progs"]["merged"], "subst": cases[ncorpus]["progs"]["subst"], "outcome": res[ncorpus].get("merged")}] if len(cases) > ncorpus else []
 
 
+def top_fields(tree):
+    """`OK {"a":#1,"m":{"p":#2}}` -> {"a": "#1", "m": "{...}"} (None when it is not a record)"""
+    if not tree.startswith("OK {") or not tree.endswith("}"):
+        return None
+    body, out, i, n = tree[4:-1], {}, 0, len(tree) - 5
+    while i < n:
+        if body[i] != '"':
+            return None
+        j = body.index('"', i + 1)
+        key = body[i + 1:j]
+        i = j + 2                       # skip `":`
+        depth, k, instr = 0, i, False
+        while k < n:
+            c = body[k]
+            if instr:
+                if c == "\\":
+                    k += 1
+                elif c == '"':
+                    instr = False
+            elif c == '"':
+                instr = True
+            elif c in "{[(":
+                depth += 1
+            elif c in "}])":
+                depth -= 1
+            elif c == "," and depth == 0:
+                break
+            k += 1
+        out[key] = body[i:k]
+        i = k + 1
+    return out
+
+
+def only_dynamic_fields_differ(a, b):
+    fa, fb = top_fields(a), top_fields(b)
+    if fa is None or fb is None or set(fa) != set(fb):
+        return False
+    diff = [k for k in fa if fa[k] != fb[k]]
+    return bool(diff) and all(k in g.DYN for k in diff)
+
+
+DYN_KEY = "dynamic-field-not-recomputed"
+DYN_TEXT = ("a dynamically named field that depends on a sibling field keeps the value computed in the operand after the sibling is "
+            "overridden: `let n = \"y\" in {b | default = 10, \"%{n}\" = b + 1} & {b = 5}` gives y = 11 (the statically named y gives 6)")
+
+
+def diverges(a):
+    return a.startswith("ERR InfiniteRec") or a.startswith("ERR Budget")
+
+
 def leaf_equiv(a, b):
     """both fail: `v1 & v2` written in one field and the merge of two fields may report a different
     first error (contract blame vs unmergeable values); a success must be matched exactly"""
@@ -456,7 +582,7 @@ def leaf_equiv(a, b):
     if a.startswith("OK") or b.startswith("OK"):
         return a == b
     ca, cb = a.split()[1].rstrip("+-"), b.split()[1].rstrip("+-")
-    soft = {"Blame", "NonMergeable", "MissingDef", "InfiniteRec", "TypeErr", "Budget"}
+    soft = {"Blame", "NonMergeable", "MissingDef", "InfiniteRec", "TypeErr", "Budget", "FieldMissing"}
     return ca == cb or (ca in soft and cb in soft)
 
 
@@ -480,6 +606,9 @@ def run(ck):
                            "(all priority forms, valueless fields, bodies of depth <= 3 over sibling names) and 1-4 merges of earlier steps "
                            "(re-merging, same operand twice, empty record).  O: structured records with static / nested / piecewise / "
                            "dynamic / included fields, 1-3 overriding operands, 7 merge shapes.")
+    ck.coverage["partial"] = ("refinement proof for flat records of integer expressions (with priorities, valueless and dynamically named fields); "
+                              "nested / piecewise / included fields, strings, arrays, functions, contracts depending on fields: dependency analysis proved "
+                              "for the whole syntax, overriding behaviour checked by the direct oracles only; FieldDeps::Unknown compared, not proved")
     ck.trusted += ["extraction: ExtrOcamlBasic only", "harness bins c07fv (prints real terms and RecordDeps), nkeval",
                    "generators checks/c07_gen.py (SplitMix64, VERIF_SEED)", "hooks: H1 (fuel), H4 (deps unknown)"]
 
